@@ -1,7 +1,9 @@
 /-
   Driver for C18. Line = "input<TAB>implObs", see harness/props/c18 (world.go: observation).
 
-  input := (K KV0 (ACTION…))                      the script; only KV0 matters here
+  input := (K KV0 (ACTION…))                      the script; only KV0 matters here (`(stubborn MODE)` = the tasks
+                                                  alive at that moment outlive every KILL: nothing to replay, the
+                                                  model's tasks only die when the trace shows a terminal update)
   obs   := (EV…)  the master's trace of the REAL core, projected, plus the harness' markers:
     (kv F|-) (start L) (sub L F|- FO) (subd F) (recon N HTTP) (launch E T) (upd T STATE recon|-|other DELIVERED)
     (kill T HTTP) (drop) (killcore) (term) (exited) (destroy E) (destroyed E OK) (teardown)
@@ -19,7 +21,9 @@
   SPEC (specOnImpl): `Spec.C18.all` on a log rebuilt from the observation ALONE (no model state): SUBSCRIBEs
   and mesos_fid values as seen, every KILL classified by what preceded it in the trace (reconciliation update /
   ordinary update / a teardown the harness asked for or the core's own shutdown) and by what GetTasks said
-  the core owned at the last snapshot, quiet points with the master's live rows of earlier lives.
+  the core owned at the last snapshot, quiet points with the master's live rows of earlier lives. RECONCILE
+  calls are in that log too, so `orphansKilledEachRound` asks for a KILL of every orphan listed at a quiet point
+  that is newer than the latest RECONCILE of that life (scripts with `(stubborn …)`: the orphan outlives its KILL).
   hyp = reconnect_kills_owned when only `ownedSpared` fails, the code has no roster test, and the replayed
   history violates `noReconnWhileOwning` (the excluded hypothesis of C18_owned_spared_partial).
 -/
@@ -338,7 +342,8 @@ def processLine (line : String) : String :=
         let o := tr.foldl Obs.onEv { snaps := snaps }
         let spec := Spec.C18.all o.log
         let model := match m.err with | none => "ACCEPT" | some w => "REJECT:" ++ (w.replace "\t" " ").replace "\n" " "
-        let onlyOwned := sameIdentity o.log && persistedOnce o.log && orphansKilled o.log && updatesNeverKill o.log && !ownedSpared o.log
+        let onlyOwned := sameIdentity o.log && persistedOnce o.log && orphansKilled o.log && orphansKilledEachRound o.log &&
+          updatesNeverKill o.log && !ownedSpared o.log
         let hyp :=
           if !spec && onlyOwned && !codeCfg.rosterGuard && !noReconnWhileOwning codeCfg W m.hist.reverse (init kv0)
           then "reconnect_kills_owned" else "-"
